@@ -1060,6 +1060,52 @@ def resultsOps (sys : Sys) (fuel : Nat) (s c : Id) (sd : Side) : List (Side × O
       (step sys fuel (sideId s c sd') op h).1 :: resultsOps sys fuel s c sd rest (step sys fuel (sideId s c sd') op h).2
     else resultsOps sys fuel s c sd rest (step sys fuel (sideId s c sd') op h).2
 
+/-! ## families of simulations and histories with clones
+
+The live simulations are kept in a list, in order of creation (the original first); an event designates a
+simulation by its rank. -/
+
+/-- the heap after calls on any of the simulations `sims` -/
+def runCalls (sys : Sys) (fuel : Nat) (sims : List Id) : List (Nat × Op) → Heap → Heap
+  | [], h => h
+  | (i, op) :: rest, h =>
+    match sims[i]? with
+    | some x => runCalls sys fuel sims rest (step sys fuel x op h).2
+    | none => runCalls sys fuel sims rest h
+
+/-- what the calls made on the `j`-th simulation return -/
+def resultsCalls (sys : Sys) (fuel : Nat) (sims : List Id) (j : Nat) : List (Nat × Op) → Heap → List (Except Err Out)
+  | [], _ => []
+  | (i, op) :: rest, h =>
+    match sims[i]? with
+    | some x =>
+      if i = j then (step sys fuel x op h).1 :: resultsCalls sys fuel sims j rest (step sys fuel x op h).2
+      else resultsCalls sys fuel sims j rest (step sys fuel x op h).2
+    | none => resultsCalls sys fuel sims j rest h
+
+def callsOf (j : Nat) (e : Nat × Op) : Option Op := if e.1 = j then some e.2 else none
+
+/-- a step of a history: a call on a live simulation, or the cloning of one (the clone joins the list) -/
+inductive Ev where
+  | call (i : Nat) (op : Op)
+  | clone (i : Nat) (trace debug : Bool)
+
+/-- heap and live simulations after a history (a `clone()` that raises makes no simulation; what it had
+allocated is unreachable and dropped) -/
+def runEvs (sys : Sys) (fuel : Nat) : List Ev → Heap × List Id → Heap × List Id
+  | [], st => st
+  | .call i op :: rest, (h, sims) =>
+    match sims[i]? with
+    | some x => runEvs sys fuel rest ((step sys fuel x op h).2, sims)
+    | none => runEvs sys fuel rest (h, sims)
+  | .clone i t d :: rest, (h, sims) =>
+    match sims[i]? with
+    | some x =>
+      match cloneSim x t d h with
+      | (.ok c, h') => runEvs sys fuel rest (h', sims ++ [c])
+      | (.error _, _) => runEvs sys fuel rest (h, sims)
+    | none => runEvs sys fuel rest (h, sims)
+
 /-! ## footprints -/
 
 /-- the references an object holds -/
